@@ -66,6 +66,13 @@ ASSUMPTIONS = [
     'requested as well; '
     'p = 1 lies beyond the slider maximum 0.5 and is requested only from /new-errors, where the answer is fixed '
     'a priori (every qubit carries a Pauli)',
+    'table: every qubit / stabilizer description equals the entry of gui-config.json (read by the check itself '
+    'from the tree under test) for (class, picture, stabilizer type): object, colours (names resolved with the '
+    'code object\'s colormap), opacities and every parameter except the position-dependent ones the class '
+    'overrides recompute (axis, normal, angle, vertices, w, length). The kitaev table stands in only where the '
+    'picture\'s own table is missing or empty. Boundary cubes of the two shifted-cube classes are redrawn as '
+    'rectangles by their override (object/params replaced; colours and opacities still compared). Measured on '
+    '/repo f731468, thorough box: no other deviation from the tables in either picture',
     'geometry: every vertex of a polygon/triangle stabilizer, placed as gui/js/shapes.js places it (rotation by '
     'angle, orientation by normal, translation by location), lies inside the axis-aligned frame spanned by all '
     'qubit and stabilizer locations of the same answer, up to 1e-9. Measured on /repo e8dca0f over the whole '
@@ -209,6 +216,57 @@ def _stab_location_ok(cn, rotated, coord, stab_type, loc):
     if cn in SHIFTED_CUBES and stab_type == 'cube' and len(diff) == 1:
         return _close(abs(loc[diff[0]] - exp[diff[0]]), 0.9)
     return False
+
+
+# ---- the description prescribed by gui-config.json, read independently ----------------------
+# parameters the class overrides recompute from the element's position (read off the overrides: orientation of
+# faces / qubits, clipped boundary polygons, the longer vertical edges and wider upright faces of the rotated 3-D
+# lattices); every other parameter, the object, the colours and the opacities come from the table unchanged
+POSITION_DEPENDENT_PARAMS = ('axis', 'normal', 'angle', 'vertices', 'w', 'length')
+
+
+def _load_gui_config():
+    import os
+    import panqec
+    with open(os.path.join(os.path.dirname(panqec.__file__), 'codes', 'gui-config.json')) as f:
+        return json.load(f)
+
+
+def _prescribed(config, cn, picture, element, stab_type):
+    """Table entry for (class, picture, element[, stabilizer type]); the picture's own table, the kitaev table
+    only where the picture's table is missing or empty (base-class comment: 'Codes without a dedicated rotated
+    picture leave that table empty'). None if there is no entry."""
+    tabs = config.get(cn, {}).get('qubits' if element == 'qubit' else 'stabilizers', {})
+    tab = tabs.get(picture) or tabs.get('kitaev')
+    if element == 'stabilizer':
+        tab = (tab or {}).get(stab_type)
+    return tab or None
+
+
+def _table_problem(tab, entry, colormap, redrawn):
+    """None, or (field, info): the first field of a returned description that is not what the table says.
+    `redrawn`: the element is one of the boundary cubes the class draws as a shifted rectangle (object and
+    parameters replaced by the override; colours and opacities still come from the table)."""
+    if tab is None:
+        return 'table', 'gui-config.json has no entry'
+    try:
+        want_col = {k: colormap[v] for k, v in tab['color'].items()}
+    except KeyError as exc:
+        return 'color', 'colour name %s of the table is not in the colormap' % exc
+    if entry['color'] != want_col:
+        return 'color', 'colours %r, table prescribes %r' % (entry['color'], want_col)
+    if entry['opacity'] != tab['opacity']:
+        return 'opacity', 'opacity %r, table prescribes %r' % (entry['opacity'], tab['opacity'])
+    if redrawn:
+        return None
+    if entry['object'] != tab['object']:
+        return 'object', 'object %r, table prescribes %r' % (entry['object'], tab['object'])
+    for k, v in tab['params'].items():
+        if k not in entry['params']:
+            return 'params', 'parameter %r of the table is missing' % k
+        if k not in POSITION_DEPENDENT_PARAMS and entry['params'][k] != v:
+            return 'params', 'parameter %s=%r, table prescribes %r' % (k, entry['params'][k], v)
+    return None
 
 
 # ---- geometry of objects with explicit vertices (gui/js/shapes.js: triangle, polygon) -------
@@ -566,6 +624,7 @@ def _eval_code_data(case):
             qcoords = list(lib.qubit_coordinates)
             scoords = list(lib.stabilizer_coordinates)
             stypes = [lib.stabilizer_type(c) for c in scoords]
+            config = _load_gui_config()
         n, m = lib.n, len(scoords)
         before = len(V)
         missing = [k for k in ('H', 'qubits', 'stabilizers', 'logical_x', 'logical_z')
@@ -583,6 +642,10 @@ def _eval_code_data(case):
                 p = _entry_problem(e, ('I', 'X', 'Y', 'Z'), dim)
                 if p is None and not _qubit_location_ok(cn, rotated, qcoords[i], e['location']):
                     p = ('location', 'location %r for coordinate %r' % (e['location'], qcoords[i]))
+                if p is None:
+                    t = _table_problem(_prescribed(config, cn, picture, 'qubit', None), e, lib.colormap, False)
+                    p = t and ('table', '%s: %s' % t)
+                    _bump(res, 'descriptions_compared_with_table')
                 if p is not None:
                     bad = bad or ('qubit', i, p)
                     _bump(res, 'bad_entries')
@@ -592,6 +655,13 @@ def _eval_code_data(case):
                     p = ('type', 'type %r, library says %r' % (e.get('type'), stypes[i]))
                 if p is None and not _stab_location_ok(cn, rotated, scoords[i], stypes[i], e['location']):
                     p = ('location', 'location %r for coordinate %r' % (e['location'], scoords[i]))
+                if p is None:
+                    redrawn = (cn in SHIFTED_CUBES and stypes[i] == 'cube' and e['object'] == 'rectangle'
+                               and any(not _close(a, b) for a, b in zip(e['location'], scoords[i])))
+                    t = _table_problem(_prescribed(config, cn, picture, 'stabilizer', stypes[i]), e,
+                                       lib.colormap, redrawn)
+                    p = t and ('table', '%s: %s' % t)
+                    _bump(res, 'descriptions_compared_with_table')
                 if p is not None:
                     bad = bad or ('stabilizer', i, p)
                     _bump(res, 'bad_entries')
